@@ -65,6 +65,8 @@ def fop(op, a, b):
         if b.denominator != 1:
             return None
         n = b.numerator
+        if abs(n) > 64:          # same bound as the model: such powers are never exactly representable anyway
+            return None
         if n >= 0:
             return a ** n
         if a == 0:
@@ -893,7 +895,24 @@ def share(rng, t, refs, p=0.35):
         return ('ref', rng.choice(refs)) if (refs and rng.random() < p) else t
     if refs and rng.random() < p / 3:
         return ('ref', rng.choice(refs))
-    return ('bin', t[1], share(rng, t[2], refs, p), share(rng, t[3], refs, p))
+    # the exponent of ** stays what the generator chose (a small integer constant or an integer-valued attribute)
+    return ('bin', t[1], share(rng, t[2], refs, p), t[3] if t[1] == '**' else share(rng, t[3], refs, p))
+
+
+def expanded_size(W, t, memo=None):
+    """number of nodes of the expression with every shared operand and every derived input written out: what one element
+    costs to evaluate (model, oracle and glue itself do not memoise)"""
+    memo = {} if memo is None else memo
+    if t[0] == 'const':
+        return 1
+    if t[0] in ('cid', 'ref'):
+        n = t[1]
+        if n not in W.defs:
+            return 1
+        if n not in memo:
+            memo[n] = expanded_size(W, W.defs[n][1], memo)
+        return memo[n]
+    return 1 + expanded_size(W, t[2], memo) + expanded_size(W, t[3], memo)
 
 
 def force_depth(rng, avail, d, expo):
@@ -1010,6 +1029,8 @@ def stream_random(R):
                         t = ('bin', rng.choice(['+', '*', '-']), t, ('cid', rng.choice(live)))
                     elif t[2][0] == 'const' and t[3][0] == 'const':
                         t = ('bin', t[1], ('ref', rng.choice(refs)), t[3])
+                if expanded_size(W, t) > 2500:
+                    continue
                 do(['add', how, t])
             elif r < 0.62:
                 do(['remove', rng.choice(live)])
@@ -1036,7 +1057,8 @@ def stream_random(R):
                             t = ('bin', '+', t, ('cid', rng.choice(avail)))
                         elif t[2][0] == 'const' and t[3][0] == 'const':
                             t = ('bin', t[1], ('ref', rng.choice(refs)), t[3])
-                    do(['redef', tgt, how, t])
+                    if expanded_size(W, t) <= 2500:
+                        do(['redef', tgt, how, t])
             elif r < 0.94:
                 perm = list(live)
                 rng.shuffle(perm)
